@@ -19,6 +19,7 @@ src: linked_list.c
 tier: B
 backend: cadical
 unwind: 8
+unwind_thorough: 12
 bound: vector length <= 4, all key values (ascending, duplicates allowed), element of any key
 funcs: spif_linked_list_insert, spif_linked_list_item_comp
 */
@@ -29,6 +30,7 @@ src: linked_list.c
 tier: B
 backend: cadical
 unwind: 8
+unwind_thorough: 12
 bound: vector length <= 4, all key values (ascending, duplicates allowed), probe of any key
 funcs: spif_linked_list_remove
 */
@@ -39,6 +41,7 @@ src: linked_list.c
 tier: B
 backend: cadical
 unwind: 8
+unwind_thorough: 12
 bound: vector length <= 4, all key values (ascending, duplicates allowed), probe of any key
 funcs: spif_linked_list_vector_find, spif_linked_list_vector_contains
 */
@@ -49,6 +52,7 @@ src: linked_list.c, obj.c
 tier: B
 backend: cadical
 unwind: 8
+unwind_thorough: 12
 bound: vector length <= 4, all key values (ascending, duplicates allowed)
 funcs: spif_linked_list_to_array, spif_linked_list_iterator, spif_linked_list_iterator_has_next, spif_linked_list_iterator_next, spif_linked_list_count
 */
